@@ -203,7 +203,9 @@ Definition sem (off : N) (ver : value) (p : list string) : prog := map (unit_of_
                      OpenMLS persists the advanced ratchet (write_message_secrets) as soon as the message is decrypted
    merge / own echo: a pending commit is stored (cell 2, group state, holds 0 = PendingCommit)
    process_welcome : no processed-welcome record for the event (cell 20 absent)
-   accept_welcome  : the welcome is still pending (cell 21 holds 0)
+   accept_welcome  : no guard (the welcome event is processed again - process_welcome returns the stored welcome whatever its
+                     state - and accepted again; an earlier version of this model assumed applications only re-accept welcomes
+                     still listed as pending: that was the harness's assumption, not the code's, and the finding built on it was a false alarm)
    rollback        : the snapshot is stored (cell 31 holds 0)
    local creating calls (create_message, self_update, update_group_data, create_group, snapshot, relays): no guard. *)
 Definition guard_of_kind (kind : string) : option (key * option value) :=
@@ -211,7 +213,7 @@ Definition guard_of_kind (kind : string) : option (key * option value) :=
      || String.eqb kind "process_proposal_member" then Some (1%N, Some 0%N)
   else if String.eqb kind "own_commit_echo" || String.eqb kind "merge_pending_commit" then Some (2%N, Some 0%N)
   else if String.eqb kind "process_welcome" then Some (20%N, None)
-  else if String.eqb kind "accept_welcome" then Some (21%N, Some 0%N)
+
   else if String.eqb kind "rollback_group_to_snapshot" || String.eqb kind "process_commit_rollback" then Some (cell_snapshot, Some 0%N)
   else None.
 Definition call_of_kind (kind : string) : call := {| guard := guard_of_kind kind; body := sem 0 1 (prog_of_kind kind) |}.
